@@ -736,6 +736,59 @@ def wrapper_close_fail():
     return None
 
 
+def close_from_other_thread_fail():
+    """Iteration ends without an exception when the port is closed INSIDE a receive call: a thread sits in `for msg in port`
+    on a port with nothing pending (a device double polled through receive, and a real SocketPort over a socket pair), another
+    thread closes the port; the loop ends quietly and the thread finishes."""
+    import socket
+    import threading
+    import mido.ports as P
+    from mido.sockets import SocketPort
+
+    class Idle(P.BaseInput):
+        def _receive(self, block=True):
+            return None
+
+    def make_socket_port():
+        a, b = socket.socketpair()
+        return SocketPort('localhost', 9, conn=a), b
+    for kind in ('device double', 'SocketPort'):
+        peer = None
+        try:
+            if kind == 'SocketPort':
+                port, peer = make_socket_port()
+            else:
+                port = Idle('idle')
+        except Exception as e:      # noqa: BLE001 - this way of building the port is not available: nothing to judge
+            continue
+        seen = {}
+
+        def loop():
+            try:
+                seen['msgs'] = [m for m in port]
+            except BaseException as e:      # noqa: BLE001
+                seen['exc'] = e
+        t = threading.Thread(target=loop, daemon=True)
+        t.start()
+        import time
+        time.sleep(0.3)
+        try:
+            port.close()
+        except Exception as e:      # noqa: BLE001
+            return f'close() of a {kind} from another thread raised {type(e).__name__}: {e}'
+        t.join(3)
+        if peer is not None:
+            peer.close()
+        if t.is_alive():
+            return f'a thread iterating a {kind} with nothing pending is still inside the loop 3 s after another thread closed the port'
+        if 'exc' in seen:
+            return (f'a {kind} was closed by another thread while `for msg in port` was waiting inside receive(): the loop raised '
+                    f'{type(seen["exc"]).__name__}: {seen["exc"]} instead of ending')
+        if seen.get('msgs') != []:
+            return f'iteration of an idle {kind} closed from another thread yielded {seen.get("msgs")}'
+    return None
+
+
 def run(ck):
     ck.prepare_lean(extra_targets=['MidoProofs.Props.C11b'])
     ck.run_corpus(oracle)
@@ -796,6 +849,11 @@ def run(ck):
             if f:
                 ck.oracle_fail({'one_pause': [kind, action]}, f)
     ck.evaluations += 1
+    ck.count('close_from_other_thread')
+    f = close_from_other_thread_fail()
+    ck.evaluations += 1
+    if f:
+        ck.oracle_fail({'close_from_other_thread': True}, f)
     ck.count('wrapper_close')
     f = wrapper_close_fail()
     ck.evaluations += 1
@@ -849,6 +907,8 @@ def oracle(case):
         return abandoned_iteration_fail()
     if 'wrapper_close' in case:
         return wrapper_close_fail()
+    if 'close_from_other_thread' in case:
+        return close_from_other_thread_fail()
     if 'multi_big_child' in case:
         return multi_big_child(case['multi_big_child'])
     if 'reset_independence' in case:
